@@ -17,8 +17,10 @@ EXTENDS PlanCache, Json, TLCExt, IOUtils
 TraceLog == ndJsonDeserialize(IOEnv.TRACE)
 VARIABLES l,      \* next line
           obs,    \* the line consumed last
-          refOf   \* Fresh class -> hash of the reference response seen first for it
-tvars == <<vars, l, obs, refOf>>
+          refOf,  \* Fresh class (in the current subgraph state) -> hash of the reference response seen first for it
+          db,     \* values of the mutations executed so far on this engine (state of the subgraphs)
+          tcap    \* plan cache capacity of this engine (1024, or 1..3 after VerifResizePlanCache)
+tvars == <<vars, l, obs, refOf, db, tcap>>
 Ev == TraceLog[l]
 IsEvent(e) == l <= Len(TraceLog) /\ Ev.ev = e /\ l' = l + 1
 NoObs == [ev |-> "none"]
@@ -29,6 +31,7 @@ TraceInit ==
   /\ opts = 0 /\ cache = {} /\ n = 0 /\ ok = TRUE /\ lastHit = FALSE
   /\ obs = NoObs
   /\ refOf = <<>>
+  /\ db = <<>> /\ tcap = 1024
 
 \* a new engine (new Env) starts a new history
 T_Reset ==
@@ -36,22 +39,36 @@ T_Reset ==
   /\ Ev.o \in OptionSets
   /\ opts' = Ev.o /\ cache' = {} /\ n' = 0 /\ ok' = TRUE /\ lastHit' = FALSE
   /\ obs' = Ev
+  /\ db' = <<>> /\ tcap' = Ev.cap
   /\ UNCHANGED refOf
 
-T_End == IsEvent("end") /\ obs' = Ev /\ UNCHANGED <<vars, refOf>>
+T_End == IsEvent("end") /\ obs' = Ev /\ UNCHANGED <<vars, refOf, db, tcap>>
 
 \* observed hit (1) / miss (0) against the model's prediction; 2 = not observable (failed request, concurrent run)
 Mismatch(e, modelHit) == IF e.g = 0 /\ e.hit \in {0, 1} /\ e.hit # (IF modelHit THEN 1 ELSE 0) THEN 1 ELSE 0
+
+\* engines with a resized plan cache (tcap < 1024): LRU eviction happens inside the history.  The model's eviction is
+\* nondeterministic (Miss keeps any subset); here the observation binds it: a request served by a plan object that already
+\* served an earlier request (hit = 1) must be a Hit of the model, a newly planned one (hit = 0) a Miss, and the model's
+\* cache has the observed length afterwards.  TLC follows every eviction choice that explains the observations so far;
+\* the trace is accepted iff one of them explains all of it.
+Strict == tcap < 1024
 
 T_Req ==
   /\ IsEvent("req")
   /\ WellFormed(Ev.a)
   /\ (Ev.g = 0 /\ Ev.hit = 1) => cache # {}         \* NoHitOnEmpty: a plan object can only be re-used after a request created one
-  /\ Request(Ev.a)
-  /\ cache \subseteq cache'                          \* capacity 1024 is never reached: nothing is evicted
+  /\ IF Strict /\ Ev.g = 0 /\ Ev.hit \in {0, 1}
+       THEN /\ (Ev.hit = 1) <=> (Lookup(Key(Ev.a)) # {})
+            /\ Request(Ev.a)
+            /\ Cardinality(cache') = Ev.len
+       ELSE /\ Request(Ev.a)
+            /\ cache \subseteq cache'                \* capacity 1024 is never reached: nothing is evicted
   /\ obs' = Ev
-  /\ refOf' = IF Fresh(Ev.a) \in DOMAIN refOf THEN refOf ELSE refOf @@ (Fresh(Ev.a) :> Ev.ref)
-  /\ TLCSet(2, TLCGet(2) + Mismatch(Ev, lastHit'))
+  /\ db' = DbAfter(Ev.a, db)
+  /\ UNCHANGED tcap
+  /\ refOf' = IF FreshIn(Ev.a, db) \in DOMAIN refOf THEN refOf ELSE refOf @@ (FreshIn(Ev.a, db) :> Ev.ref)
+  /\ TLCSet(2, TLCGet(2) + (IF Strict THEN 0 ELSE Mismatch(Ev, lastHit')))
 
 TraceNext == T_Reset \/ T_Req \/ T_End
 TraceSpec == TraceInit /\ [][TraceNext]_tvars
@@ -62,12 +79,14 @@ IsReq == obs.ev = "req"
 T_Transparent == IsReq => obs.resp = obs.ref
 \* the reference itself depends only on what Fresh says a response may depend on: renaming the variables, literal vs
 \* variable vs default, operation name, fragments vs inline, an extra operation never change the response
-T_FreshFunctional == IsReq => refOf[Fresh(obs.a)] = obs.ref
+T_FreshFunctional == IsReq => refOf[FreshIn(obs.a, IF IsMutation(obs.a.s) /\ obs.a.val # Invalid THEN SubSeq(db, 1, Len(db) - 1) ELSE db)] = obs.ref
 \* planning is independent of previous plans and of serving from the cache: the plan that served the request and the
 \* subgraph requests it produced are those of a fresh engine with the same option set
 T_PlanIndependent == (IsReq /\ obs.g = 0 /\ obs.hit # 2) => (obs.plan = obs.fplan /\ obs.bod = obs.fbod)
 \* the spec's own invariant along the recorded history
 T_Model == ok /\ KeyFunctional
+\* the plan cache never holds more plans than its capacity (observed length, VerifPlanCacheLen) and neither does the model
+T_Capacity == (IsReq /\ obs.g = 0) => (obs.len <= tcap /\ Cardinality(cache) <= tcap)
 
 HighWater == TLCSet(1, IF l > TLCGet(1) THEN l ELSE TLCGet(1))
 TraceAccepted ==
